@@ -1,4 +1,6 @@
 """C16: conformance is a preorder, coercion conforms - structural rules on feel/src/types.rs (DESIGN §3 C16)."""
+import json
+
 import hirflow
 from facts import find_hir, strip
 
@@ -184,6 +186,43 @@ def run(F, rep, tier):
                 rep.violation(r3, key, "%s: the return at line %s sits inside the element loop but its condition does not depend on the element: "
                               "it is never evaluated for an empty collection (e.g. function types without parameters)" % (nm, line), "%s:%s" % (FILE, line))
     rep.floor(r2, "recursive component calls", ncalls, 10)
+
+    # ---- R16.3 (MIR): a verdict accumulated over the components must accumulate: a local that is written inside a component loop with a computed
+    # value, never read inside that loop, and read afterwards only remembers the last component
+    import mirutil
+    from props.c05 import _sccs
+    for bname, b in sorted(F.bodies.items()):
+        if not bname.startswith(T + "::") or b["kind"] == "closure":
+            continue
+        blocks = b["blocks"]
+        nodes = [i for i, bl in enumerate(blocks) if not bl.get("cleanup")]
+        succ = {i: [y for y in mirutil.normal_successors(blocks[i]["t"]) if not blocks[y].get("cleanup")] for i in nodes}
+        B = mirutil.Body(F, b)
+        for comp in _sccs(nodes, succ):
+            if not (len(comp) > 1 or comp[0] in succ[comp[0]]):
+                continue
+            cs = set(comp)
+            for l, nm in (b.get("names") or {}).items():
+                if not l.isdigit():
+                    continue
+                l = int(l)
+                defs_in = [d for d in B.defs.get(l, []) if d[0] in cs]
+                defs_out = [d for d in B.defs.get(l, []) if d[0] not in cs]
+                if not defs_in or not defs_out or B.is_arg(l):
+                    continue
+                computed = [d for d in defs_in if d[2] == "call" or (d[2] == "assign" and not (d[3][2][0] == "Use" and d[3][2][1][0] == "K"))]
+                if not computed:
+                    continue
+
+                def reads(bl):
+                    txt = json.dumps([st[2] for st in bl["s"] if st[0] == "A"]) + json.dumps(bl["t"][1] if bl["t"][0] in ("switch",) else (bl["t"][1].get("args") if bl["t"][0] == "call" else ""))
+                    return ('["C", [%d' % l) in txt or ('["M", [%d' % l) in txt
+                read_in = any(reads(blocks[x]) for x in cs)
+                read_after = any(reads(blocks[x]) for x in nodes if x not in cs)
+                if not read_in and read_after:
+                    line = computed[0][3].get("line") if isinstance(computed[0][3], dict) else computed[0][3][-1]
+                    rep.violation(r3, "%s:overwritten:%s" % (bname.split("::")[-1], nm), "`%s` in %s is assigned a computed value in every iteration of a component loop (line %s) without combining it "
+                                  "with its previous value, and is used after the loop: only the last component decides" % (nm, bname.split("::")[-1], line), "%s:%s" % (FILE, line))
 
     # ---- R16.5: coerced() trusts Value::type_of; for the composite kinds it must look at every component
     r5 = rep.rule("R16.5", "Value::type_of derives the type of a list / context from all of its items / entries (a loop or iterator over the components that calls type_of on each)")
